@@ -10,6 +10,7 @@ import (
 	"io"
 	"os"
 	"path/filepath"
+	"sort"
 	"strings"
 
 	"github.com/foxboron/go-uefi/authenticode"
@@ -45,6 +46,364 @@ func c02Pair(c *Ctx, cs Case, img []byte, cert *x509.Certificate, class, certkin
 	}
 	if got == "ok true" && certkind != "right" {
 		c.Fail(Failure{Kind: "property", What: "verification succeeded under a certificate whose key did not sign (" + certkind + ")", Case: cs, Go: got})
+	}
+	// an oracle that does not go through the Lean Spec: the way these classes are built rules a success out (no
+	// signature at all / a covered byte differs from what every key present signed / the signature was made over
+	// another image / the certificate table is not the tail of the file)
+	if got == "ok true" && c02StdlibJudges(class) {
+		if acc, claimed := c02IndependentAccepts(img, cert); claimed && !acc {
+			c.Fail(Failure{Kind: "property", What: "verification succeeded although no entry of the certificate table is accepted by the independent verifier (encoding/asn1 + crypto/rsa over the attributes as transmitted, message digest = SHA-256 of the content) with a SHA-256 DigestInfo equal to the independently computed image digest (" + class + ", certificate: " + certkind + ")", Case: cs, Go: got, Spec: "Spec.authenticodeVerifyLenient=" + spec})
+		} else if claimed {
+			c.Class("independent-verifier-agrees/" + class[:min(len(class), 24)])
+		}
+	}
+	if got == "ok true" && c02MustReject(class) {
+		c.Fail(Failure{Kind: "property", What: "verification succeeded on a derived image whose construction leaves no signature by any of the asked keys over these bytes (" + class + ", certificate: " + certkind + ")", Case: cs, Go: got})
+	}
+}
+
+// ---- an oracle for "success => a signature by this key over these bytes" built without Lean: the table walk
+// of extractCertTable, the encoding/asn1 + crypto/rsa verifier of p7common.go, and the digest below ----
+
+// goAuthDigest: SHA-256 over the Authenticode hash input of an image whose layout peLayoutOf claims (and in
+// which every section header that declares raw data has a place in the file): headers without the checksum and
+// the certificate-table entry, the sections in file order, everything from SizeOfHeaders + the sum of the raw
+// sizes to the certificate table, zero padding to a multiple of 8.
+func goAuthDigest(img []byte) ([]byte, bool) {
+	l, ok := peLayoutOf(img)
+	if !ok || l.nobits > 0 {
+		return nil, false
+	}
+	h := sha256.New()
+	h.Write(img[:l.ck])
+	h.Write(img[l.ck+4 : l.dd])
+	h.Write(img[l.dd+8 : l.soh])
+	secs := append([][2]int{}, l.secs...)
+	sort.Slice(secs, func(i, j int) bool { return secs[i][0] < secs[j][0] })
+	sum := l.soh
+	for _, sc := range secs {
+		h.Write(img[sc[0]:sc[1]])
+		sum += sc[1] - sc[0]
+	}
+	if sum > l.certStart {
+		return nil, false
+	}
+	h.Write(img[sum:l.certStart])
+	if l.certStart == len(img) {
+		h.Write(make([]byte, (8-len(img)%8)%8))
+	}
+	return h.Sum(nil), true
+}
+
+// spcDigestInfo: (digest algorithm OID, digest) of the SpcIndirectDataContent inside a SignedData, read off the DER tree
+func spcDigestInfo(blob []byte) (alg, digest []byte) {
+	roots, ok := parseDER(blob)
+	if !ok || len(roots) == 0 {
+		return nil, nil
+	}
+	sd := p7SignedDataOf(roots[0])
+	if len(sd.kids) < 3 || len(sd.kids[2].kids) < 2 || len(sd.kids[2].kids[1].kids) < 1 {
+		return nil, nil
+	}
+	spc := sd.kids[2].kids[1].kids[0]
+	if spc.tag != 0x30 || len(spc.kids) < 2 {
+		return nil, nil
+	}
+	di := spc.kids[1]
+	if di.tag != 0x30 || len(di.kids) < 2 || di.kids[0].tag != 0x30 || len(di.kids[0].kids) < 1 || di.kids[0].kids[0].tag != 0x06 || di.kids[1].tag != 0x04 {
+		return nil, nil
+	}
+	return di.kids[0].kids[0].leaf, di.kids[1].leaf
+}
+
+// c02IndependentAccepts: does some entry of the certificate table hold a CMS signature that the stdlib-based
+// verifier accepts for cert and whose DigestInfo names SHA-256 and holds the image digest? claimed is false when
+// the image layout or an entry is outside what these independent readers handle.
+func c02IndependentAccepts(img []byte, cert *x509.Certificate) (accepts, claimed bool) {
+	d, ok := goAuthDigest(img)
+	if !ok {
+		return false, false
+	}
+	claimed = true
+	for _, e := range extractCertTable(img) {
+		std, parsed := stdVerify(e, cert, nil)
+		if !parsed {
+			claimed = false
+			continue
+		}
+		alg, dg := spcDigestInfo(e)
+		if std && bytes.Equal(alg, []byte{0x60, 0x86, 0x48, 0x01, 0x65, 0x03, 0x04, 0x02, 0x01}) && bytes.Equal(dg, d) {
+			return true, true
+		}
+	}
+	return false, claimed
+}
+
+// classes whose blobs are well-formed DER inside the SignedData syntax (the stdlib decoder is stricter than the
+// property about unsigned structure, so random blob mutations are left to the Spec)
+func c02StdlibJudges(class string) bool {
+	if strings.Contains(class, "outside-the-syntax") {
+		return false
+	}
+	switch class {
+	case "signed", "unsigned", "byte-change", "transplant", "digest-rewrite", "two-signatures", "tampered+foreign-resign", "signed-overlay",
+		"size-inflate", "table-shift", "data-after-table", "data-after-table+size":
+		return true // the blobs are the library's own, untouched (the digest overwritten in place at most)
+	}
+	for _, pre := range []string{"tampered+foreign-resign+carrier/", "tampered+genuine-carrying-foreign/"} {
+		if strings.HasPrefix(class, pre) {
+			return true
+		}
+	}
+	for _, pre := range []string{"blob-", "digest-rewrite+"} {
+		if t, ok := strings.CutPrefix(class, pre); ok {
+			return strings.HasPrefix(t, "forge-") || strings.HasPrefix(t, "two-signers/") || t == "drop-signed-attrs"
+		}
+	}
+	return false
+}
+
+// c02MustReject: derivation classes on which no certificate of the harness may verify, by construction.
+// (Not among them: data-after-table+size, where the directory entry is stretched over the appended bytes - these
+// then lie inside the certificate table behind its last entry, which the digest excludes.)
+func c02MustReject(class string) bool {
+	for _, p := range []string{"digest-rewrite", "tampered+"} {
+		if strings.HasPrefix(class, p) {
+			return true
+		}
+	}
+	for _, p := range []string{"unsigned", "transplant", "data-after-table", "size-inflate", "table-shift"} {
+		if class == p {
+			return true
+		}
+	}
+	return false
+}
+
+// peFileLayout is a walk of the headers that shares nothing with the library or the Lean Spec. It returns the
+// end of the headers, the raw data ranges of the sections that have a place in the file (SizeOfRawData > 0 and
+// PointerToRawData > 0), the first position behind the last of them (at least the end of the headers) and the
+// start of the certificate table (or the file length). ok is false when the ranges overlap, leave the file or
+// reach into the headers: then nothing is claimed about the image.
+type peFileLayout struct {
+	ck, dd, soh, tail, certStart int
+	secs                         [][2]int
+	nobits                       int // headers that declare raw data but have no file pointer
+}
+
+func peLayoutOf(img []byte) (l peFileLayout, ok bool) {
+	if len(img) < 0x40 {
+		return l, false
+	}
+	pe := int(binary.LittleEndian.Uint32(img[0x3c:]))
+	if pe < 0 || pe+24+2 > len(img) {
+		return l, false
+	}
+	opt := pe + 24
+	l.ck, l.dd = opt+64, opt+128
+	if binary.LittleEndian.Uint16(img[opt:]) == 0x20b {
+		l.dd = opt + 144
+	}
+	nsec := int(binary.LittleEndian.Uint16(img[pe+6:]))
+	secTab := opt + int(binary.LittleEndian.Uint16(img[pe+20:]))
+	if l.dd+8 > secTab || secTab+40*nsec > len(img) {
+		return l, false
+	}
+	l.soh = int(binary.LittleEndian.Uint32(img[opt+60:]))
+	l.certStart = len(img)
+	if sz := int(binary.LittleEndian.Uint32(img[l.dd+4:])); sz > 0 {
+		l.certStart = int(binary.LittleEndian.Uint32(img[l.dd:]))
+		if l.certStart+sz != len(img) {
+			return l, false
+		}
+	}
+	if secTab+40*nsec > l.soh || l.soh > l.certStart {
+		return l, false
+	}
+	l.tail = l.soh
+	for i := 0; i < nsec; i++ {
+		e := secTab + 40*i
+		size, ptr := int(binary.LittleEndian.Uint32(img[e+16:])), int(binary.LittleEndian.Uint32(img[e+20:]))
+		if size != 0 && ptr == 0 {
+			l.nobits++
+		}
+		if size == 0 || ptr == 0 {
+			continue // no byte of the file belongs to this section
+		}
+		if ptr < l.soh || ptr+size > l.certStart {
+			return l, false
+		}
+		for _, o := range l.secs {
+			if ptr < o[1] && o[0] < ptr+size {
+				return l, false
+			}
+		}
+		l.secs = append(l.secs, [2]int{ptr, ptr + size})
+		if ptr+size > l.tail {
+			l.tail = ptr + size
+		}
+	}
+	return l, true
+}
+
+// c02CoveredChanges: the clause "no change to a covered byte of a signed image", judged without the Lean Spec
+// and therefore on EVERY signed image the library accepts, inside the Spec's well-formed domain or not. What the
+// Authenticode digest covers whatever the section table says: the headers outside the checksum and the
+// certificate-table directory entry, the raw data of every section that has a place in the file, and every byte
+// behind the last such section up to the certificate table (the data "after the last section": symbol tables,
+// debug data, overlays, the padding in front of the table). One bit of such a byte is changed; the image must no
+// longer verify under the signer's certificate. Positions: both ends of every region and, for the data behind the
+// last section, its first bytes one by one, powers of two from its start, its last bytes and random ones.
+func c02CoveredChanges(c *Ctx, cs Case, signed []byte, right *x509.Certificate, domain string) {
+	l, ok := peLayoutOf(signed)
+	if !ok {
+		c.Class("covered-change/" + domain + "/layout-not-claimed")
+		return
+	}
+	if got := goVerifyClass(signed, right); got != "ok true" {
+		c.Class("covered-change/" + domain + "/signed-image-does-not-verify")
+		return
+	}
+	type pos struct {
+		p      int
+		region string
+	}
+	var ps []pos
+	add := func(region string, p, lo, hi int) {
+		if p >= lo && p < hi && !(p >= l.ck && p < l.ck+4) && !(p >= l.dd && p < l.dd+8) {
+			ps = append(ps, pos{p, region})
+		}
+	}
+	add("headers", 2+c.Rng.Intn(0x3a), 0, l.soh) // the DOS header between the magic and e_lfanew
+	add("headers", l.soh-1, 0, l.soh)
+	for i, sc := range l.secs {
+		if i < 3 || i == len(l.secs)-1 {
+			add("section", sc[0], sc[0], sc[1])
+			add("section", sc[1]-1, sc[0], sc[1])
+		}
+	}
+	for d := 0; d < 4; d++ {
+		add("behind-last-section", l.tail+d, l.tail, l.certStart)
+	}
+	for d := 4; l.tail+d < l.certStart; d *= 2 {
+		add("behind-last-section", l.tail+d, l.tail, l.certStart)
+		add("behind-last-section", l.tail+d-1, l.tail, l.certStart)
+	}
+	add("behind-last-section", l.certStart-1, l.tail, l.certStart)
+	add("behind-last-section", l.certStart-9, l.tail, l.certStart)
+	for i := 0; i < 3 && l.certStart > l.tail; i++ {
+		add("behind-last-section", l.tail+c.Rng.Intn(l.certStart-l.tail), l.tail, l.certStart)
+	}
+	seen := map[int]bool{}
+	for _, q := range ps {
+		if seen[q.p] {
+			continue
+		}
+		seen[q.p] = true
+		m := append([]byte{}, signed...)
+		m[q.p] ^= byte(1 << uint(c.Rng.Intn(8)))
+		got := strings.TrimPrefix(goVerifyClass(m, right), "parse-")
+		c.Count(fmt.Sprintf("%s|covered-change|%d|%x", cs.Key(), q.p, sha256.Sum256(m)), true, "covered-change/"+domain+"/"+q.region+"/"+strings.ReplaceAll(got, " ", "-"))
+		if strings.Contains(got, "panic") {
+			c.Fail(Failure{Kind: "property", Matcher: "c02.verify_panics", What: "verification panicked (covered byte changed, " + q.region + ")", Case: cs, Go: got})
+		} else if got == "ok true" {
+			c.Fail(Failure{Kind: "property", What: fmt.Sprintf("byte %#x of a signed image that verifies was changed (%#02x -> %#02x) and the image still verifies under the signer's certificate; the byte lies in: %s (end of headers %#x, end of the last section with file data %#x, certificate table at %#x, %d bytes; image %s the Spec's well-formed domain)",
+				q.p, signed[q.p], m[q.p], q.region, l.soh, l.tail, l.certStart, len(signed), domain), Case: cs, Go: got, Spec: "the byte is covered by the Authenticode digest: a change must make verification fail"})
+		}
+	}
+}
+
+// c02OneObject: one parsed object is asked again and again, the way a caller walks the entries of a signature
+// database with one parsed signature. Every call must answer what the same call answers on a freshly parsed
+// object, and only (signer's certificate, the image's own hash input) may succeed: a success is bound to the key
+// and the bytes of THIS call, never to what an earlier call established.
+func c02OneObject(c *Ctx, cs Case, signed, sig, pre []byte, certs map[string]*x509.Certificate) {
+	tampered := append([]byte{}, pre...)
+	tampered[len(tampered)/2] ^= 0x01
+	streams := map[string][]byte{"same": pre, "changed": tampered}
+	type step struct{ api, cert, stream string }
+	cls := func(pan bool, ok bool, err error) string {
+		if pan {
+			return "panic"
+		}
+		if err != nil {
+			return "err"
+		}
+		return fmt.Sprintf("ok %v", ok)
+	}
+	// one call on the given objects (nil: parse fresh ones)
+	call := func(a *authenticode.Authenticode, p *authenticode.PECOFFBinary, st step) string {
+		var ok bool
+		var err error
+		var pan bool
+		switch st.api {
+		case "Authenticode.Verify":
+			if a == nil {
+				if a, err = authenticode.ParseAuthenticode(sig); err != nil {
+					return "parse-err"
+				}
+			}
+			pan, _ = safely(func() { ok, err = a.Verify(certs[st.cert], bytes.NewReader(streams[st.stream])) })
+		case "PKCS7.Verify":
+			if a == nil {
+				if a, err = authenticode.ParseAuthenticode(sig); err != nil {
+					return "parse-err"
+				}
+			}
+			pan, _ = safely(func() { ok, err = a.Pkcs.Verify(certs[st.cert]) })
+		case "PECOFFBinary.Verify":
+			if p == nil {
+				if p, err = authenticode.Parse(bytes.NewReader(signed)); err != nil {
+					return "parse-err"
+				}
+			}
+			pan, _ = safely(func() { ok, err = p.Verify(certs[st.cert]) })
+		}
+		return cls(pan, ok, err)
+	}
+	kinds := []string{"right", "twin", "stranger"}
+	apis := []string{"Authenticode.Verify", "PKCS7.Verify", "PECOFFBinary.Verify"}
+	var histories [][]step
+	// the signer's certificate first, then each other certificate through each entry point; and the reverse
+	for _, api := range apis {
+		histories = append(histories, []step{{api, "right", "same"}, {api, "twin", "same"}, {api, "stranger", "same"}, {api, "right", "same"}},
+			[]step{{api, "twin", "same"}, {api, "right", "same"}, {api, "twin", "same"}})
+	}
+	histories = append(histories,
+		[]step{{"Authenticode.Verify", "right", "same"}, {"PKCS7.Verify", "twin", ""}, {"Authenticode.Verify", "twin", "same"}},
+		[]step{{"PKCS7.Verify", "right", ""}, {"Authenticode.Verify", "twin", "same"}, {"PKCS7.Verify", "twin", ""}},
+		[]step{{"Authenticode.Verify", "right", "same"}, {"Authenticode.Verify", "right", "changed"}, {"Authenticode.Verify", "right", "same"}},
+		[]step{{"Authenticode.Verify", "right", "changed"}, {"Authenticode.Verify", "right", "same"}, {"Authenticode.Verify", "twin", "changed"}})
+	for i := 0; i < c.P(2, 12); i++ { // random walks
+		var h []step
+		for j := 0; j < 3+c.Rng.Intn(4); j++ {
+			h = append(h, step{apis[c.Rng.Intn(len(apis))], kinds[c.Rng.Intn(len(kinds))], []string{"same", "same", "changed"}[c.Rng.Intn(3)]})
+		}
+		histories = append(histories, h)
+	}
+	for hi, h := range histories {
+		a, err1 := authenticode.ParseAuthenticode(sig)
+		p, err2 := authenticode.Parse(bytes.NewReader(signed))
+		if err1 != nil || err2 != nil {
+			return
+		}
+		trail := ""
+		for si, st := range h {
+			got := call(a, p, st)
+			fresh := call(nil, nil, st)
+			c.Count(fmt.Sprintf("%s|one-object|%d|%d", cs.Key(), hi, si), true, "one-object/"+st.api+"/"+st.cert+"/"+strings.ReplaceAll(got, " ", "-"))
+			here := fmt.Sprintf("%s(%s certificate%s)", st.api, st.cert, map[bool]string{true: ", " + st.stream + " stream", false: ""}[st.api == "Authenticode.Verify"])
+			if got == "panic" {
+				c.Fail(Failure{Kind: "property", Matcher: "c02.verify_panics", What: here + " panicked on an object that had answered: " + trail, Case: cs})
+			}
+			mayOK := st.cert == "right" && (st.api != "Authenticode.Verify" || st.stream == "same")
+			if got == "ok true" && !mayOK {
+				c.Fail(Failure{Kind: "property", What: "one parsed signature asked repeatedly: " + here + " succeeded although this key did not sign these bytes; calls before it on the same object: " + trail, Case: cs, Go: got, Spec: "a freshly parsed object answers: " + fresh})
+			} else if got != fresh {
+				c.Fail(Failure{Kind: "property", What: "one parsed signature asked repeatedly: " + here + " answers differently from the same call on a freshly parsed object; calls before it on the same object: " + trail, Case: cs, Go: got, Spec: "a freshly parsed object answers: " + fresh})
+			}
+			trail += here + "=" + got + "; "
+		}
 	}
 }
 
@@ -120,16 +479,53 @@ func c02Eval(c *Ctx, cs Case) {
 	s2 := genPeSpec(c, false)
 	s2.CertBodies = nil
 	other = buildPE(s2).img
+	shapes := certShapes(c)
+	right := makeRSACert(poolKey(c, 2048, 0), shapes[0])
+	twin := makeRSACert(poolKey(c, 2048, 1), shapes[0]) // same issuer and serial, another key
+	stranger := makeRSACert(poolKey(c, 2048, 1), shapes[1])
+	// Is the image inside the domain the Lean Spec speaks about? The Spec decides, not the harness.
+	if wf := fieldAfter(c.Drv.Ask("pe.spec", hx(base)), "wf="); wf != "true" {
+		// Outside it (a section that declares raw data without a file pointer, ...) the Spec assigns no digest and the
+		// Impl model is not a model of the library. The library may refuse such an image at any stage; when it signs
+		// it and verifies what it signed, the clauses of the property that need no digest still bind it: no other key,
+		// no transplant, no change of a byte that every reading of the format covers.
+		cl := "outside-wf-domain/" + specOfCase(cs).class() + "/"
+		var signed []byte
+		var err error
+		if pan, _ := safely(func() { signed, _, err = signImage(c, base, 0) }); pan {
+			c.Fail(Failure{Kind: "property", Matcher: "c02.verify_panics", What: "parsing/signing an image outside the well-formed domain panicked", Case: cs})
+			return
+		}
+		if err != nil {
+			c.Count(cs.Key()+"|outside", true, cl+"not-signed-by-the-library")
+			return
+		}
+		for _, kc := range []struct {
+			kind string
+			c    *x509.Certificate
+		}{{"right", right}, {"twin", twin}, {"stranger", stranger}} {
+			for _, v := range []struct {
+				class string
+				img   []byte
+			}{{"signed", signed}, {"transplant", withTable(other, tableOf(signed))}} {
+				got := goVerifyClass(v.img, kc.c)
+				c.Count(fmt.Sprintf("%s|outside|%s|%s", cs.Key(), v.class, kc.kind), true, cl+v.class+"/"+kc.kind+"/"+strings.ReplaceAll(got, " ", "-"))
+				if strings.Contains(got, "panic") {
+					c.Fail(Failure{Kind: "property", Matcher: "c02.verify_panics", What: "verification panicked (" + v.class + ", image outside the well-formed domain)", Case: cs, Go: got})
+				} else if got == "ok true" && (kc.kind != "right" || v.class != "signed") {
+					c.Fail(Failure{Kind: "property", What: "verification succeeded without a signature by this key over these bytes (" + v.class + ", certificate: " + kc.kind + ", image outside the well-formed domain)", Case: cs, Go: got})
+				}
+			}
+		}
+		c02CoveredChanges(c, cs, signed, right, "outside")
+		return
+	}
 	signed, sig, err := signImage(c, base, 0)
 	if err != nil {
 		c.Fail(Failure{Kind: "property", What: "signing a well-formed image failed: " + err.Error(), Case: cs})
 		return
 	}
 	c.Sample(cs)
-	shapes := certShapes(c)
-	right := makeRSACert(poolKey(c, 2048, 0), shapes[0])
-	twin := makeRSACert(poolKey(c, 2048, 1), shapes[0]) // same issuer and serial, another key
-	stranger := makeRSACert(poolKey(c, 2048, 1), shapes[1])
 	all := func(img []byte, class string) {
 		c02Pair(c, cs, img, right, class, "right")
 		c02Pair(c, cs, img, twin, class, "twin")
@@ -139,6 +535,7 @@ func c02Eval(c *Ctx, cs Case) {
 	}
 	all(signed, "signed")
 	c02Pair(c, cs, base, right, "unsigned", "right")
+	c02CoveredChanges(c, cs, signed, right, "inside")
 	// --- every class of the quantifier ---
 	// 1. single-byte changes of the signed image (stratified)
 	if len(flips) == 0 {
@@ -372,6 +769,10 @@ func c02Eval(c *Ctx, cs Case) {
 			}
 		}
 	}
+	// 10. one parsed object (Authenticode, its PKCS7, PECOFFBinary) asked repeatedly with different certificates and streams
+	if pre := unhx(fieldAfter(c.Drv.Ask("pe.spec", hx(signed)), "pre=")); len(pre) > 0 {
+		c02OneObject(c, cs, signed, sig, pre, map[string]*x509.Certificate{"right": right, "twin": twin, "stranger": stranger})
+	}
 	// 5. two entries: a foreign valid signature first, ours second, and the reverse
 	if s2signed, sig2, err := signImage(c, base, 3); err == nil {
 		_ = s2signed
@@ -390,11 +791,30 @@ func c02Gen(c *Ctx) {
 		cs["op"] = "verify-derivations"
 		c02Eval(c, cs)
 	}
+	// images with section headers that declare raw data but have no file pointer (uninitialised data as some
+	// linkers emit it), in front of or behind the other headers, with less / exactly as much / more data behind the
+	// last section than these headers declare
+	for i := 0; i < c.N(8, 300) && c.NFailures() < 6; i++ {
+		s := genPeSpec(c, false)
+		s.CertBodies = nil
+		r := c.Rng
+		total := 0
+		for k := 0; k < 1+r.Intn(2); k++ {
+			z := []int{1, 7, 8, 9, 64, 512, 1 + r.Intn(2000)}[r.Intn(7)]
+			s.NoBits = append(s.NoBits, z)
+			total += z
+		}
+		s.NoBitsFront = r.Intn(2) == 0
+		s.Trailing = []int{total, total + 1, total + 8 + r.Intn(300), 2*total + r.Intn(64), total - 1}[i%5]
+		cs := specCase(s)
+		cs["op"] = "verify-derivations"
+		c02Eval(c, cs)
+	}
 }
 
 func init() {
 	register("C02", &PropDef{
-		Rule:   "images from the C01 generator and two repository binaries, signed by the library; for each, Verify under the signer's certificate, a twin certificate (same issuer and serial, another key) and a stranger, on: the signed image, the unsigned image, ~25 stratified single-byte changes (+8 inside the certificate table), a cross-image transplant of the certificate table, a covered-byte change with the embedded digest overwritten by the new image digest (alone, and combined with each targeted blob edit and OID replacement), targeted edits inside the blob (content, content type, certificates, signer identity, message digest, dropped attributes), a sample of generic blob mutations, two-signature tables in both orders, a tampered image carrying the original signature plus a foreign key's signature over the tampered bytes (both orders), and the same tampered image with ONE table entry: the foreign key's signature with the genuine signature over the original bytes placed inside it, in every place of a blob that can hold another blob (unsigned attributes of a signer entry under the SpcNestedSignature / MS RFC 3161 timestamp / timeStampToken / an unknown attribute type, one and two values; a counter-signature attribute holding the genuine signer entry; an extra certificate; the CRL field; a further content element; the genuine signer entries appended / prepended; trailing fields of SignedData and of the content info; a second SignedData), plus a sample of the reverse nesting. The targeted blob edits include the two-signer-entry combinations of C04 (identity x signature, and identity x attributes re-bound to replaced content) and a blob consistently re-signed by another key. Every pair is compared with the Lean Impl verifier (real SHA-256/RSA) and judged by Spec.authenticodeVerify. Every case is non-trivial; distinct = distinct (image bytes, certificate).",
+		Rule:   "images from the C01 generator and two repository binaries, signed by the library; for each, Verify under the signer's certificate, a twin certificate (same issuer and serial, another key) and a stranger, on: the signed image, the unsigned image, ~25 stratified single-byte changes (+8 inside the certificate table), a cross-image transplant of the certificate table, a covered-byte change with the embedded digest overwritten by the new image digest (alone, and combined with each targeted blob edit and OID replacement), targeted edits inside the blob (content, content type, certificates, signer identity, message digest, dropped attributes), a sample of generic blob mutations, two-signature tables in both orders, a tampered image carrying the original signature plus a foreign key's signature over the tampered bytes (both orders), and the same tampered image with ONE table entry: the foreign key's signature with the genuine signature over the original bytes placed inside it, in every place of a blob that can hold another blob (unsigned attributes of a signer entry under the SpcNestedSignature / MS RFC 3161 timestamp / timeStampToken / an unknown attribute type, one and two values; a counter-signature attribute holding the genuine signer entry; an extra certificate; the CRL field; a further content element; the genuine signer entries appended / prepended; trailing fields of SignedData and of the content info; a second SignedData), plus a sample of the reverse nesting. The targeted blob edits include the two-signer-entry combinations of C04 (identity x signature, and identity x attributes re-bound to replaced content) and a blob consistently re-signed by another key. Every pair is compared with the Lean Impl verifier (real SHA-256/RSA) and judged by Spec.authenticodeVerify; in addition, two oracles that do not go through Lean: (a) derivation classes whose construction rules out a success (unsigned, transplant, digest-rewrite*, tampered+*, data-after-table, size-inflate, table-shift) must not verify under any asked certificate; (b) covered-byte changes by an independent header walk: on every signed image that verifies, one bit is changed in the headers (outside checksum and certificate-table entry), at both ends of the raw data of the sections that have a place in the file, and behind the last such section up to the certificate table (its first four bytes one by one, offsets 2^k and 2^k-1 from its start, its last bytes, three random ones), and the image must no longer verify. Besides the well-formed images, 8 images whose section table also holds one or two headers that declare raw data without a file pointer (SizeOfRawData in {1,7,8,9,64,512,random} > 0, PointerToRawData = 0; in front of or behind the other headers), with fewer / exactly as many / more bytes behind the last section than these headers declare: the Lean Spec is asked (pe.spec) whether an image lies in its well-formed domain; outside it neither the Spec verdict nor the Impl model is applied, the library may refuse to parse or sign, and when it signs and verifies the image, oracle (b), the twin / stranger certificates and the table transplant still bind it. One parsed object asked repeatedly (the way a caller walks a signature database with one parsed signature): for every image, histories of 3-7 calls of Authenticode.Verify (over the hash input of the image or a changed stream), its PKCS7.Verify and PECOFFBinary.Verify on ONE parsed Authenticode / PECOFFBinary with the signer, twin and stranger certificates in both orders (signer first, other key first), mixed entry points and random walks; every call must answer what the same call answers on a freshly parsed object, and only (signer certificate, own hash input) may succeed. Every case is non-trivial; distinct = distinct (image bytes, certificate) resp. (image, history, step).",
 		Assume: []string{"RSA/SHA-256 on the model side are the executable Lean implementations", "x509.ParseCertificates is opaque (its verdicts are handed to the model)"},
 		Eval:   c02Eval, Gen: c02Gen,
 	})
